@@ -500,7 +500,17 @@ bool full_exchange_cycles(const std::vector<double> &A, const std::vector<double
 	return true;
 }
 
+NnlsProblem make_nnls_unscaled(const Json &d);
+// The matrix may be small in absolute terms while the right-hand side is of order one (A scaled by 10^e, e < 0):
+// the minimiser is x/10^e, the multipliers keep their magnitude, the conditioning does not change. Solvers that
+// compare matrix entries with absolute thresholds show here. Normal-equation form only.
 NnlsProblem make_nnls(const Json &d) {
+	NnlsProblem p = make_nnls_unscaled(d);
+	int e = (int)d.geti("matrix_scale_exp", 0);
+	if (e) { double f = std::pow(10.0, (double)e); for (double &v : p.A) v *= f; p.m = 0; p.M.clear(); p.y.clear(); }
+	return p;
+}
+NnlsProblem make_nnls_unscaled(const Json &d) {
 	NnlsProblem p;
 	Rng r((uint64_t)strtoull(d.gets("pseed", "1").c_str(), nullptr, 16), "nnls");
 	int n = (int)d.geti("n", 4);
@@ -1009,10 +1019,16 @@ struct SchedHarness : Harness {
 			prob["n"] = Json(n);
 			prob["kind"] = Json(kind);
 			{ Rng st(runseed, "storage"); if (st.chance(0.2)) prob["storage"] = Json("unsorted"); }
+			bool mscaled = false;
+			{ Rng ms(runseed, "matrix_scale"); static const int me[] = {-6, -5, -4, -3}; if (!big && ms.chance(0.08)) { prob["matrix_scale_exp"] = Json(me[ms.below(4)]); mscaled = true; } }
+			// (not below 1e-6: BLOCK3 itself drops matrix entries below DBL_EPSILON in absolute terms; at a scale of 1e-10 that
+			// removes entries of relative size 2e-6 and shifts the gradient by about that much on the unchanged tree - observed,
+			// marginally above the oracle's tolerance, and left outside the generated range)
 			if (depth == "plain") {
 				static const char *sv[] = {"block", "updown", "lh_normal", "lh_ls"};
 				std::string s = sv[gen.below(4)];
 				if (big) s = gen.chance(0.5) ? "updown" : "block";
+				if (mscaled && (s == "lh_ls" || s == "lh_normal")) s = gen.chance(0.5) ? "block" : "updown";   // normal-equation solvers only
 				if (s == "lh_ls" && (kind == "integer" || kind == "degenerate" || kind == "tie2" || kind == "exchange_cycles" || kind == "grid")) s = "lh_normal";
 				prob["solver"] = Json(s);
 				static const double tols[] = {0, 0, 1e-10};
@@ -1534,6 +1550,7 @@ struct SchedHarness : Harness {
 		if (plan["problem"].geti("extra") > 0) { Json c = plan; c["problem"]["extra"] = Json(0); out.push_back(c); }
 		if (plan.getb("affinity_fails")) { Json c = plan; c["affinity_fails"] = Json(false); out.push_back(c); }
 		if (plan["problem"].has("storage")) { Json c = plan; c["problem"].erase("storage"); out.push_back(c); }
+		if (plan["problem"].has("matrix_scale_exp")) { Json c = plan; c["problem"].erase("matrix_scale_exp"); out.push_back(c); }
 		if (plan["problem"].has("unit_exp")) { Json c = plan; c["problem"].erase("unit_exp"); out.push_back(c); }
 		if (plan.gets("cholmod", "simplicial") != "simplicial") { Json c = plan; c["cholmod"] = Json("simplicial"); out.push_back(c); }
 		if (plan.has("env") && (plan["env"].gets("form", "both") != "both" || plan["env"].geti("style", 0))) { Json c = plan; c.erase("env"); out.push_back(c); }
